@@ -228,6 +228,7 @@ func rulePAIRpar1(w *World, r *Report) {
 	} else {
 		r.bad("PAIR", "par1:coder-both-sides", "-", "encoder and decoder do not both construct the coder through reedsolomon.New")
 	}
+	pairPar1Reconstruct(w, r)
 	// UTF-16 names
 	for _, p := range []struct{ fn, callee string }{{"par1.encodeUTF16LEString", "unicode/utf16.Encode"}, {"par1.decodeUTF16LEString", "unicode/utf16.Decode"}} {
 		fn := w.Fn(p.fn)
@@ -362,6 +363,35 @@ func rulePAIRERRTYPE(w *World, r *Report) {
 			r.ok("PAIR", "errtype:par1", w.pos(c1.Pos()), "PAR1 classifier compares with reedsolomon.ErrTooFewShards, which Reconstruct returns unchanged through Decoder.Repair (ERRFLOW)")
 		} else {
 			r.bad("PAIR", "errtype:par1", w.pos(c1.Pos()), "PAR1 classifier does not compare with reedsolomon.ErrTooFewShards")
+		}
+	}
+}
+
+func pairPar1Reconstruct(w *World, r *Report) {
+	r.rule("PAIR", rulePAIRText)
+	// the double check verifies shards that Reconstruct (all shards, parity included) completed
+	if fn := w.Fn("(*par1.Decoder).Repair"); fn != nil {
+		var rec, ver ssa.CallInstruction
+		for _, c := range callInstrs(fn) {
+			if c.Common().IsInvoke() {
+				switch c.Common().Method.Name() {
+				case "Reconstruct":
+					rec = c
+				case "Verify":
+					ver = c
+				case "ReconstructData":
+					if rec == nil {
+						rec = nil
+					}
+				}
+			}
+		}
+		switch {
+		case ver == nil:
+		case rec != nil && instrDominates(rec, ver) && rec.Common().Args[0] == ver.Common().Args[0]:
+			r.ok("PAIR", "par1:reconstruct-then-verify", w.ipos(ver), "rs.Verify(shards) runs on shards completed by rs.Reconstruct(shards)")
+		default:
+			r.bad("PAIR", "par1:reconstruct-then-verify", w.ipos(ver), "the double check runs rs.Verify on shards that were not completed by rs.Reconstruct (which also rebuilds missing parity): with a missing parity volume the check fails although the repair is right")
 		}
 	}
 }
